@@ -39,7 +39,7 @@ class Probe:
 
     def n(self, quick, thorough):
         k = thorough if self.tier == 'thorough' else quick
-        return k * 3 if self.aimed and self.tier == 'quick' else k
+        return k * max(3, scale()) if self.aimed and self.tier == 'quick' else k
 
     def case(self, clause, inp, nontrivial=True):
         """register one evaluated case"""
